@@ -37,9 +37,9 @@ def candleRat (ts : List String) : Option (Candle Rat) := candleOfToks ts
 def renkoStep (eps : Rat) (pre : Renko) (c : Candle Rat) (value : Rat) (obs agg blocks post : List String) : Option String :=
   let vol := pre.volume + c.volume
   -- prices that have decayed towards the subnormal range (brick sizes close to 1 shrink the base line by orders of
-  -- magnitude per brick): the relative-error model of DESIGN §3 does not apply there
-  let tiny : Rat := 1 / ((2 ^ 900 : Nat) : Rat)
-  if ratAbs value < tiny || ratAbs pre.last_block_lower < tiny then none else
+  -- magnitude per brick) or grown towards the overflow threshold: the relative-error model of DESIGN §3 does not apply there
+  let tiny : Rat := if eps > 1 / ((2 ^ 30 : Nat) : Rat) then 1 / ((2 ^ 110 : Nat) : Rat) else 1 / ((2 ^ 900 : Nat) : Rat)
+  if ratAbs value < tiny || ratAbs pre.last_block_lower < tiny || ratAbs value * tiny > 1 || ratAbs pre.last_block_upper * tiny > 1 then none else
   let lenTok := (kv obs "len").getD "?"
   let L : Nat := ((lenTok.drop 1).toString.toNat?).getD 0
   let up := pre.next_block_upper ≤ value
